@@ -7,8 +7,8 @@ S=/root/scratch/seed-$NAME; rm -rf $S; mkdir -p $S
 BASE=$(git -C /repo rev-list --max-parents=0 HEAD)
 git -C /repo archive $BASE | tar -x -C $S
 cd $S
-cp $M/demo_test.go $PKG/zz_demo_$NAME_test.go 2>/dev/null || cp $M/demo_test.go $PKG/zz_demo_test.go
-DEMO=$(ls $PKG/zz_demo*_test.go)
+cp $M/demo_test.go $PKG/zz_demo_test.go
+DEMO=$PKG/zz_demo_test.go
 go test -vet=off -count=1 -run "$PAT" ./$PKG/ > $S.c.log 2>&1; c=$?
 rm -f $DEMO
 patch -p1 -s < $M/patch.diff || { echo "patch failed"; exit 2; }
@@ -26,6 +26,6 @@ if [ $a -eq 0 ] && [ $b -ne 0 ] && [ $c -eq 0 ]; then
 EOT
   echo "KEPT seeded/$NAME"
 else
-  echo "REJECTED $NAME (see $S.*.log)"; tail -5 $S.a.log $S.b.log $S.c.log
+  echo "REJECTED $NAME (see $S.*.log)"; tail -n 5 $S.a.log $S.b.log $S.c.log
 fi
 rm -rf $S
